@@ -29,7 +29,9 @@ Inductive xml_apply_variant :=
 | XmlDescOrNoneNoDiffGuard (* description=self.change_description or None; only `if not changes` *)
 | XmlDescOrNoneDiffGuard.  (* the same plus `if not diff: return None` *)
 (** regex_transformer.py [RegexTransformerPipeline.apply]. *)
-Inductive regex_apply_variant := RegexGuardChanges.
+Inductive regex_apply_variant :=
+| RegexNoFailureHandling   (* pinned tree: read/decode, _apply and Change(...) exceptions leave apply: the run aborts *)
+| RegexFailureHandled.     (* try/except around the read ("Failed to read file") and around _apply ("Failed to transform file") *)
 (** file_context.py [FileContext.add_failure] / [add_unfixed_findings]. *)
 Inductive failure_variant := FailureLineZero.
 (** context.py aggregation + compile_results + add_description; update_finding_metadata; CodeTF.build/write_report;
